@@ -37,6 +37,7 @@ type mutation struct {
 	class     string // coarse class used in signatures
 	malformed bool   // a row cannot be parsed as (int32, hash, uint32, uint32, int64) or has a wrong column count
 	lenient   bool   // the statement does not clearly call this file bad: refusal never required
+	sameData  bool   // only the spelling of a value differs: if the file is accepted, what is stored equals the export
 	minAff    int    // first data-row index whose content differs from the export (none = no row differs)
 	rows      int    // number of data rows in the mutated file (-1 = unknown)
 	file      []byte
@@ -245,6 +246,22 @@ func (s *store) mutations(rnd func(id string) *rand.Rand) []mutation {
 			}
 			out = append(out, mutation{id: id, class: "column-count", malformed: true, minAff: idx, rows: rows, modes: modes, file: assemble(s.header, ls),
 				note: fmt.Sprintf("row %d: %q -> %q", idx+1, s.lines[idx], ls[idx])})
+		}
+		// a merkle root spelled differently (upper-case hex digits, a leading zero dropped): the same value
+		{
+			f := strings.Split(s.lines[idx], ",")
+			old := f[merkleCol]
+			for v, alt := range []string{strings.ToUpper(old), strings.TrimLeft(old, "0")} {
+				if alt == old || alt == "" {
+					continue
+				}
+				ls := copyLines()
+				g := append([]string(nil), f...)
+				g[merkleCol] = alt
+				ls[idx] = strings.Join(g, ",")
+				out = append(out, mutation{id: fmt.Sprintf("respelled/merkleroot-%d/%s", v, row), class: "respelled", lenient: true, sameData: true, minAff: none, rows: n, modes: []string{cpLast},
+					file: assemble(s.header, ls), note: fmt.Sprintf("row %d merkle root %q written as %q (the same value)", idx+1, old, alt)})
+			}
 		}
 		// deleted row
 		{
@@ -559,6 +576,10 @@ func (e *env) corruptionCase(caseID string, s *store, m mutation, mode string) {
 		case kinds == "" && !cpCase:
 			r.Count("accepted_and_equal_to_export", 1) // the change was harmless
 			r.Count("accepted_and_equal_"+m.class+"_"+strings.SplitN(m.id, "/", 3)[1], 1)
+		case m.sameData:
+			detail["imported_rows"] = len(got)
+			detail["difference_to_exported_chain"] = desc
+			r.Violate("accepted-import-differs-from-the-file|"+m.class+"|"+kinds, "start-up accepted a file in which "+m.note+", and the imported chain differs from the exported one: "+desc, caseID, detail)
 		case must:
 			detail["imported_rows"] = len(got)
 			detail["difference_to_exported_chain"] = desc
